@@ -33,6 +33,8 @@ def eTlNegative := "tl-negative"
 def eTlMissing := "tl-missing"
 def eTlDuplicate := "tl-duplicate"
 def eTlTooMany := "tl-too-many"
+def eScriptTooLarge := "script-number-too-large"   -- ANM `script 2147483647 x {}`: no next number
+def eStdTooMany := "std-too-many"                  -- more than 65535 objects or quads
 
 /-! ## constant integer expressions (the fragment used for ids) -/
 
@@ -152,13 +154,14 @@ def stripIds (next : UInt32) : List UInt32 → List (Option UInt32)
 /-! ## ANM scripts -/
 
 /-- `gather_script_ids`: the number stored in the script table (`number.unwrap_or(next)`,
-`next = id + 1` with a *checked* add: `script 2147483647 x {}` panics in the dev profile),
-and the duplicate-name check.  The constant of a script is its position in this list. -/
+`next = id.checked_add(1)`: `script 2147483647 x {}` is the error "script number too large",
+reported before the duplicate-name check of that item), and the duplicate-name check.
+The constant of a script is its position in this list. -/
 def gatherScriptIds : Int32 → List Name → List (Name × Option Int32) → Outcome (List (Name × Int32))
   | _, _, [] => .ok []
   | next, seen, (n, num) :: rest =>
     let id := num.getD next
-    if id = Int32.maxValue then .panic "anm/mod.rs gather_script_ids: attempt to add with overflow"
+    if id = Int32.maxValue then .err eScriptTooLarge
     else if seen.contains n then .err eDupScript
     else match gatherScriptIds (id + 1) (n :: seen) rest with
       | .ok r => .ok ((n, id) :: r)
@@ -581,7 +584,12 @@ def stdInstances (objects : List Name) : List Name → Outcome (List Nat)
       | .ok r => .ok (i % 65536 :: r)
       | x => x
 
-def compileStd (objects instances : List Name) : Outcome (List Nat) :=
-  if hasDup objects then .err eDupField else stdInstances objects instances
+/-- parser (duplicate object names), then `write_std`: the object count and the total quad count
+are 16-bit fields and object index 0xffff ends the instance list, so more than 65535 of either is
+an error; then the instances. -/
+def compileStd (objects instances : List Name) (numQuads : Nat := 0) : Outcome (List Nat) :=
+  if hasDup objects then .err eDupField
+  else if objects.length > 65535 || numQuads > 65535 then .err eStdTooMany
+  else stdInstances objects instances
 
 end TruthModel.Ids
